@@ -17,7 +17,10 @@ SPECIAL_STR = ["", " ", "two words", "three word value", "1", "42", "-7", "3.14"
                "\\n", "\\t", "trés", "é", "\U0001F600", "1.2.3", "1.0-beta", "2024-01-15", "100%", "60%_done",
                "===END===", "---", "```", "a=b", "(paren)", "semi;colon", "q?", "x!", "UPPER lower", "a  b", " lead",
                "trail ", "true.x", "null-a", "vs.x", "True", "NULL", "SpeedvsQuality", "a{b}", "A{b}", "~", "a~b", "+",
-               "a+b", "|", "&", "@", "<", ">", "a<b", "->", "<->", "A->B", "it's", "\r", "x\ry"]
+               "a+b", "|", "&", "@", "<", ">", "a<b", "->", "<->", "A->B", "it's", "\r", "x\ry",
+               # characters that NFC rewrites although they carry NO combining mark (singleton decompositions, conjoining jamo, CJK
+               # compatibility ideographs): a reader that normalises only lines with combining marks leaves them alone (seed r7-C09-a)
+               "\u2126", "k\u2126 5", "\u212b", "\u1112\u1161\u11ab", "\uf900"]
 COMMENTS = ["note", "a comment", "TODO: x", "with :: ops -> |", "", "  spaced  ", "uni → code", "// nested"]
 HOLO = ['["example"∧REQ→§SELF]', '["x"∧REQ]', '[1∧TYPE[NUMBER]]', '["a"∧ENUM[a,b]→§T]',
         '["d"∧REQ∧REGEX["^a$"]→§INDEXER]',
